@@ -134,7 +134,9 @@ SCENARIOS = [
     ("default-survival-primed-constrained", lambda c: c["surv"] == "default" and c.get("prime") and c["n_ieq"] > 0 and not c.get("late_feasible")
      and 0.2 <= feasible_share(c) <= 0.8),          # feasible and infeasible candidates compete in every generation
     # small feasible region: feasible members appear one at a time during the run, with the constraint-ranking survival
-    ("constr-survival-late-feasible", lambda c: c["surv"] == "ConstrRankAndCrowding" and c.get("late_feasible") and c["alg"] in ("NSDE", "GDE3", "GDE3MNN", "GDE32NN", "GDE3P")),
+    # (1-6 % of the box feasible: typically one feasible candidate among parents and trials at some generation)
+    ("constr-survival-late-feasible", lambda c: c["surv"] == "ConstrRankAndCrowding" and c.get("late_feasible") and c["alg"] in ("NSDE", "GDE3", "GDE3MNN", "GDE32NN", "GDE3P")
+     and 0.0 < feasible_share(c, 200) <= 0.06),
     # single-objective DE on a coarse plateau with a minimal population: generations in which no trial replaces its parent
     # (every variable has a proper range and most coordinates cross over, so the rejected trials differ from their parents)
     ("de-stagnant", lambda c: c["alg"] == "DE" and c["digits"] == 1 and c["pop_size"] <= 1 + 2 * (c["y"] + (1 if "-to-" in c["sel"] else 0)) + 2
@@ -147,6 +149,9 @@ SCENARIOS = [
     # the dither range handed over as one float array that every construction in the process shares
     ("shared-F-array", lambda c: bool(c.get("F_array"))),
     # an unusual constructor flag that the DE algorithms accept (the initial population is ranked all the same), feasible members from the start
+    # an unconstrained (mu+lambda) run long enough for the whole population to become mutually non-dominated
+    ("nsde-all-nondominated", lambda c: c["alg"] in ("NSDE", "NSDER") and c["n_ieq"] == 0 and not c.get("n_eq") and c["n_obj"] >= 2 and c["digits"] >= 2
+     and (c["pop_size"] <= 9 or c["alg"] == "NSDER")),
     # an objective that is +inf on part of the box
     ("infinite-objective-region", lambda c: c.get("pole") is not None and decarr(c["xu"])[c["pole"][1]] - decarr(c["xl"])[c["pole"][1]] > 1e-3),
     ("no-advance-after-initial-infill", lambda c: bool(c.get("no_adv_init")) and (c["n_ieq"] == 0 or feasible_share(c) >= 0.3)),
@@ -162,7 +167,7 @@ def gen_scenario_case(rng, k, algs, n_gen=4):
             if pred(c):
                 c["scenario"] = name
                 c["fresh_process"] = True        # state carried between calls is part of the scenario, not of the batch it sits in
-                if name == "de-stagnant":
+                if name in ("de-stagnant", "constr-survival-late-feasible", "nsde-all-nondominated"):
                     c["n_gen"] = max(c["n_gen"], 8)
                 return c
     return None
@@ -399,6 +404,8 @@ def tell_term(cfg, obs, g):
         exp_idx, oranks(G["rank_before"]), oranks(G["rank_after"]), crowd)
     if g == 0:
         return "match survive (N:=Fn) %s %s %s %d %s with\n  | Ok ((s, a), rest) => %s\n  | Err _ => false end" % (sk, constr, minds(obs, G["infills"]), n, E, check)
+    if alg == "NSDE" and G["cands"] is not None and [pos.get(i) for i in G["cands"]] != list(range(len(cand))):
+        return "false"          # (mu + lambda): the survival operator must be handed population ++ offspring, the model's merge
     if alg in ("NSDE", "GA", "EA"):
         return "match mu_plus_lambda (N:=Fn) %s %s %s %s %d %s with\n  | Ok ((s, a), rest) => %s\n  | Err _ => false end" % (
             sk, constr, minds(obs, G["pre"]), minds(obs, G["infills"]), n, E, check)
